@@ -35,6 +35,8 @@ pub async fn run_worker_loop(mut ctx: ShardContext, mut rx: Receiver<ShardMessag
             } => {
                 debug!(target: LOG_TARGET, shard_id = id, "Received QueryStream message");
                 let result = on_query_streaming(command, metadata, &ctx, &registry).await;
+                #[cfg(sneldb_verif)]
+                crate::verif::step("read.mailbox_done", &format!("\"shard\":{id}"));
                 if response.send(result).is_err() {
                     error!(target: LOG_TARGET, shard_id = id, "Streaming response receiver dropped");
                 }
